@@ -263,6 +263,116 @@ fn build_peak(n: u64, map: bool, shape: &str, cap: usize) -> (usize, usize) {
     (p, after_new)
 }
 
+/// keys generated on the fly for `extend_stream`
+struct GenStream {
+    i: u64,
+    n: u64,
+    buf: Vec<u8>,
+}
+impl<'a> fst::Streamer<'a> for GenStream {
+    type Item = (&'a [u8], u64);
+    fn next(&'a mut self) -> Option<(&'a [u8], u64)> {
+        if self.i >= self.n {
+            return None;
+        }
+        self.buf = mem_key(self.i);
+        self.i += 1;
+        Some((&self.buf, self.i * 3))
+    }
+}
+struct GenStreamSet(GenStream);
+impl<'a> fst::Streamer<'a> for GenStreamSet {
+    type Item = &'a [u8];
+    fn next(&'a mut self) -> Option<&'a [u8]> {
+        self.0.next().map(|(k, _)| k)
+    }
+}
+
+/// peak heap of a build of `n` generated keys through a batch front end over a discarding sink
+fn fe_peak(fe: &str, n: u64) -> usize {
+    let base = reset_peak();
+    let sink = Discard { n: 0, cap: 0 };
+    match fe {
+        // iterator with an exact size hint (a mapped range)
+        "map_iter_exact" => {
+            let mut b = fst::MapBuilder::new(sink).unwrap();
+            b.extend_iter((0..n).map(|i| (mem_key(i), i * 3 + 1))).unwrap();
+            let p = peak() - base;
+            b.finish().unwrap();
+            p
+        }
+        "raw_iter_exact" => {
+            let mut b = raw::Builder::new_type(sink, 0).unwrap();
+            b.extend_iter((0..n).map(|i| (mem_key(i), raw::Output::new(i * 3 + 1)))).unwrap();
+            let p = peak() - base;
+            b.finish().unwrap();
+            p
+        }
+        "set_iter_exact" => {
+            let mut b = fst::SetBuilder::new(sink).unwrap();
+            b.extend_iter((0..n).map(mem_key)).unwrap();
+            let p = peak() - base;
+            b.finish().unwrap();
+            p
+        }
+        // iterators that cannot tell their length (lower bound 0, no upper bound)
+        "map_iter_unknown" => {
+            let mut b = fst::MapBuilder::new(sink).unwrap();
+            let mut i = 0u64;
+            b.extend_iter(std::iter::from_fn(move || {
+                if i >= n {
+                    None
+                } else {
+                    i += 1;
+                    Some((mem_key(i - 1), i * 3))
+                }
+            }))
+            .unwrap();
+            let p = peak() - base;
+            b.finish().unwrap();
+            p
+        }
+        "set_iter_unknown" => {
+            let mut b = fst::SetBuilder::new(sink).unwrap();
+            let mut i = 0u64;
+            b.extend_iter(std::iter::from_fn(move || {
+                if i >= n {
+                    None
+                } else {
+                    i += 1;
+                    Some(mem_key(i - 1))
+                }
+            }))
+            .unwrap();
+            let p = peak() - base;
+            b.finish().unwrap();
+            p
+        }
+        // a filtered iterator: lower bound 0, upper bound n
+        "set_iter_filter" => {
+            let mut b = fst::SetBuilder::new(sink).unwrap();
+            b.extend_iter((0..n).filter(|i| i % 7 != 3).map(mem_key)).unwrap();
+            let p = peak() - base;
+            b.finish().unwrap();
+            p
+        }
+        "map_stream" => {
+            let mut b = fst::MapBuilder::new(sink).unwrap();
+            b.extend_stream(GenStream { i: 0, n, buf: vec![] }).unwrap();
+            let p = peak() - base;
+            b.finish().unwrap();
+            p
+        }
+        _ => {
+            let mut b = fst::SetBuilder::new(sink).unwrap();
+            b.extend_stream(GenStreamSet(GenStream { i: 0, n, buf: vec![] })).unwrap();
+            let p = peak() - base;
+            b.finish().unwrap();
+            p
+        }
+    }
+}
+
 pub fn bang(r: &mut Runner, line: &str) {
     let t: Vec<&str> = line.split(' ').filter(|x| !x.is_empty()).collect();
     match t[0] {
@@ -278,6 +388,97 @@ pub fn bang(r: &mut Runner, line: &str) {
             r.notes.push(format!("membuild {} keys={} cap={} n1={} peak1={} n2={} peak2={} after_new={}", t[1], shape, cap, n1, p1, n2, p2, new1));
             r.check(p2 as f64 <= 1.25 * p1 as f64 + 65536.0, || {
                 format!("C13 builder heap grows with the number of keys ({} keys, sink cap {}): peak({})={} peak({})={}", shape, cap, n1, p1, n2, p2)
+            });
+        }
+        "!cli" => {
+            // !cli <set|map|union> <prev> <rows>: the sorted CLI paths (`fst set --sorted`,
+            // `fst map --sorted`, `fst union`) write the same bytes as an in-memory library
+            // build, also with `--force` onto an output path that already holds `prev` bytes
+            // of other data (longer than the result when prev is large)
+            let what = t[1];
+            let prev: usize = t[2].parse().unwrap();
+            let rows = crate::util::parse_kvs(t.get(3).copied().unwrap_or(""));
+            let mut sorted = rows.clone();
+            sorted.sort();
+            sorted.dedup_by(|a, b| a.0 == b.0);
+            let bin = std::env::var("FST_BIN").expect("FST_BIN");
+            let dir = std::env::var("FST_TMP").unwrap_or_else(|_| "/verif/target/tmp".into());
+            std::fs::create_dir_all(&dir).unwrap();
+            let tag = format!("{}-{}", std::process::id(), r.line_no);
+            let outp = format!("{}/cli-out-{}.fst", dir, tag);
+            let _ = std::fs::remove_file(&outp);
+            if prev > 0 {
+                // a previous, longer, valid FST at the output path
+                let old: Vec<Vec<u8>> = (0..prev).map(|i| format!("old{:06}", i).into_bytes()).collect();
+                let f = raw::Fst::from_iter_set(old.iter()).unwrap();
+                std::fs::write(&outp, f.as_bytes()).unwrap();
+            }
+            let mut cmd = std::process::Command::new(&bin);
+            let mut tmp_inputs: Vec<String> = vec![];
+            let want: Vec<u8> = match what {
+                "union" => {
+                    // two input sets: even and odd rows
+                    let (a, b): (Vec<_>, Vec<_>) = sorted.iter().enumerate().partition(|(i, _)| i % 2 == 0);
+                    let fa = raw::Fst::from_iter_set(a.iter().map(|(_, (k, _))| k.clone())).unwrap();
+                    let fb = raw::Fst::from_iter_set(b.iter().map(|(_, (k, _))| k.clone())).unwrap();
+                    let pa = format!("{}/cli-a-{}.fst", dir, tag);
+                    let pb = format!("{}/cli-b-{}.fst", dir, tag);
+                    std::fs::write(&pa, fa.as_bytes()).unwrap();
+                    std::fs::write(&pb, fb.as_bytes()).unwrap();
+                    cmd.arg("union").arg(&pa).arg(&pb).arg(&outp);
+                    tmp_inputs.push(pa);
+                    tmp_inputs.push(pb);
+                    raw::Fst::from_iter_set(sorted.iter().map(|(k, _)| k.clone())).unwrap().into_inner()
+                }
+                _ => {
+                    let inp = format!("{}/cli-in-{}.txt", dir, tag);
+                    let mut text: Vec<u8> = vec![];
+                    for (k, v) in &sorted {
+                        text.extend_from_slice(k);
+                        if what == "map" {
+                            text.extend_from_slice(format!(",{}", v).as_bytes());
+                        }
+                        text.push(b'\n');
+                    }
+                    std::fs::write(&inp, text).unwrap();
+                    cmd.arg(what).arg("--sorted").arg(&inp).arg(&outp);
+                    tmp_inputs.push(inp);
+                    if what == "map" {
+                        raw::Fst::from_iter_map(sorted.iter().map(|(k, v)| (k.clone(), *v))).unwrap().into_inner()
+                    } else {
+                        raw::Fst::from_iter_set(sorted.iter().map(|(k, _)| k.clone())).unwrap().into_inner()
+                    }
+                }
+            };
+            if prev > 0 {
+                cmd.arg("--force");
+            }
+            let out = cmd.output().unwrap();
+            for p in &tmp_inputs {
+                let _ = std::fs::remove_file(p);
+            }
+            let got = std::fs::read(&outp).unwrap_or_default();
+            let _ = std::fs::remove_file(&outp);
+            r.check(out.status.success(), || format!("C07 C15 `fst {}` exited with {:?}: {}", what, out.status.code(), String::from_utf8_lossy(&out.stderr)));
+            r.check(got == want, || {
+                format!(
+                    "C07 C15 `fst {}`{} left {} bytes at the output path, the in-memory build of the same data has {} bytes (equal prefix: {})",
+                    what,
+                    if prev > 0 { " --force over an existing file" } else { "" },
+                    got.len(),
+                    want.len(),
+                    got.len() >= want.len() && got[..want.len()] == want[..]
+                )
+            });
+        }
+        "!memfe" => {
+            // !memfe <front end> <n1> <n2>: the batch entry points feed the builder key by key
+            let (fe, n1, n2): (&str, u64, u64) = (t[1], t[2].parse().unwrap(), t[3].parse().unwrap());
+            let p1 = fe_peak(fe, n1);
+            let p2 = fe_peak(fe, n2);
+            r.notes.push(format!("memfe {} n1={} peak1={} n2={} peak2={}", fe, n1, p1, n2, p2));
+            r.check(p2 as f64 <= 1.25 * p1 as f64 + 65536.0, || {
+                format!("C13 builder heap grows with the number of keys through {}: peak({})={} peak({})={}", fe, n1, p1, n2, p2)
             });
         }
         "!memstream" => {
